@@ -557,13 +557,23 @@ def s_vec_into_iter(ip, st, fr, name, args, c, site):
 
 @S('std::iter::Iterator::copied', 'std::iter::Iterator::cloned')
 def s_copied(ip, st, fr, name, args, c, site):
-    it = args[0]
+    it = as_iter(ip, st, args[0])
+    if it.fns:
+        raise X.Unanalysable('copied after a closure adaptor', site)
     return one(X.Iter(it.base, it.pos, it.end, it.kind + ('copied',), it.extra, it.fns))
+
+
+def position_adaptor_ok(it, name, site):
+    """position adaptors are interpreted on the underlying sequence; that is only right while no element has been
+    dropped (filter / take_while) and, for enumerate, not yet transformed (the pair would be built from the raw element)"""
+    if any(k in it.kind for k in ('filter', 'take_while')) or (it.fns and name in ('enumerate', 'zip')):
+        raise X.Unanalysable('%s after a closure adaptor' % name, site)
 
 
 @S('std::iter::Iterator::enumerate')
 def s_enumerate(ip, st, fr, name, args, c, site):
-    it = args[0]
+    it = as_iter(ip, st, args[0])
+    position_adaptor_ok(it, 'enumerate', site)
     if 'rev' in it.kind:
         raise X.Unanalysable('enumerate after rev')
     return one(X.Iter(it.base, it.pos, it.end, it.kind + ('enumerate',), it.pos, it.fns))
@@ -572,12 +582,14 @@ def s_enumerate(ip, st, fr, name, args, c, site):
 @S('std::iter::Iterator::rev')
 def s_rev(ip, st, fr, name, args, c, site):
     it = as_iter(ip, st, args[0])
+    position_adaptor_ok(it, 'rev', site)
     return one(X.Iter(it.base, it.pos, it.end, it.kind + ('rev',), it.extra, it.fns))
 
 
 @S('std::iter::Iterator::skip')
 def s_skip(ip, st, fr, name, args, c, site):
     it, n = args
+    position_adaptor_ok(it, 'skip', site)
     if 'rev' in it.kind or 'enumerate' in it.kind:
         # enumerate().skip(n): indices keep counting from the enumerate start, which pos-based numbering preserves
         if 'rev' in it.kind:
